@@ -1781,6 +1781,11 @@ where
                 }
             }
 
+            // Note from_str_radix tolerates a sign, which is not a hex digit.
+            if !s.chars().all(|c| c.is_ascii_hexdigit()) {
+                self.input = orig_input;
+                return None;
+            }
             match u32::from_str_radix(&s, 16) {
                 Ok(u) => {
                     if u > 0x10_FFFF {
@@ -1807,6 +1812,10 @@ where
                     return None;
                 }
             }
+            if !s.chars().all(|c| c.is_ascii_hexdigit()) {
+                self.input = orig_input;
+                return None;
+            }
             match u16::from_str_radix(&s, 16) {
                 Ok(u) => {
                     if (0xD800..=0xDBFF).contains(&u) {
@@ -1829,6 +1838,9 @@ where
                                 s.push(c);
                             }
 
+                            if !s.chars().all(|c| c.is_ascii_hexdigit()) {
+                                return None;
+                            }
                             let uu = u16::from_str_radix(&s, 16).ok()?;
                             let ch = char::decode_utf16([u, uu]).next()?.ok()?;
                             Some(u32::from(ch))
